@@ -720,9 +720,19 @@ func c13EpSplitCreate(e *c13EpEnv, s *VStream, stats *VStats, r *VRand, symOf ma
 	e.scan()
 	emit(fmt.Sprintf("ep gocprep %d %s %d %s %s %d", k, c13B(symOf[k]), nat, c13OptTok(g), c13OptTok(g), d), "ok")
 	stats.Inc("ep.split.create")
-	win := &c13Window{avoid: e.pool.shardFor(c13EpKey(k, symOf[k]))}
+	win := &c13Window{avoid: e.pool.shardFor(c13EpKey(k, symOf[k])), reset: true}
 	for j, n := 0, 1+r.Intn(3); j < n; j++ {
 		c := r.Intn(100)
+		if r.Chance(0.12) {
+			// the transport the new conn rides on ends before the endpoint is published / registered
+			dd := d
+			if r.Chance(0.2) {
+				dd = 1 - d
+			}
+			c13EpTransportDone(e, stats, dd, emit)
+			stats.Inc("ep.split.create.tdoneInside")
+			continue
+		}
 		if r.Chance(0.6) {
 			// the interesting neighbour: the creator's dialer is invalidated before the object is published
 			nt := &componentdialer.NetworkType{L4Proto: consts.L4ProtoStr_UDP, IpVersion: consts.IpVersionStr_4, UdpHealthDomain: componentdialer.UdpHealthDomainData}
